@@ -1,6 +1,6 @@
 (* Property C06 - formatting options never change content.  Theorems only. *)
 From MF Require Import Lib.Base Lib.PyDict Model.SlotDoc Model.SlotCheck Model.PPrint Model.Roundtrip Model.Api
-  Proofs.SlotsAll Proofs.C06.
+  Proofs.SlotsAll Proofs.C06 Spec.Reader Proofs.PrintU.
 
 (* [F] PARTIAL: for every root-level document of the slot product and every
    option set of a covering family (each value of indent 0/1/2/3/4/8, both
@@ -32,3 +32,75 @@ Theorem C06_separate_is_stable_partition :
       filter (fun kv => negb (moved (fst kv))) items ++ filter (fun kv => moved (fst kv)) items.
 Proof. exact (fun A moved items => @move_all_partition A moved items). Qed.
 Print Assumptions C06_separate_is_stable_partition.
+
+(* ---- universal theorems on the printer model (Proofs/PrintU*.v, agent prover-printer) *)
+
+(* [U] success, the exception raised and the dictionary left behind do not
+   depend on indent, spacer, newlinechar, end_comment, align_values: the printer
+   factors through a layout-free abstract document *)
+Theorem C06_outcome_layout_independent :
+  forall o o' d, same_content_opts o o' ->
+    match pprint o d, pprint o' d with
+    | Ok (_, d1), Ok (_, d2) => d1 = d2
+    | Err e1, Err e2 => e1 = e2
+    | _, _ => False
+    end.
+Proof. exact pprint_outcome_layout_independent. Qed.
+Print Assumptions C06_outcome_layout_independent.
+
+(* [U] the content an independent reader (Spec/Reader.v) finds in the text is the
+   same under any two layouts - for every dictionary whose printed pieces are
+   complete token sequences (content_closed: e.g. no string holding the output
+   quote unescaped, the documented exclusion) and layouts made of blanks with a
+   newlinechar that breaks the line (layout_ok) *)
+Theorem C06_layout_options_preserve_content :
+  forall o o' d s d1,
+    same_content_opts o o' -> layout_ok o = true -> layout_ok o' = true ->
+    content_closed (quote o) (separate_complex_types o) d = true ->
+    pprint o d = Ok (s, d1) ->
+    exists s', pprint o' d = Ok (s', d1) /\ tokenize s' = tokenize s
+               /\ tokenize s = content_tokens (quote o) (separate_complex_types o) d.
+Proof. exact layout_options_preserve_content. Qed.
+Print Assumptions C06_layout_options_preserve_content.
+
+(* [U] all six options at once: same content, up to the quote character chosen *)
+Theorem C06_formatting_options_preserve_content :
+  forall o o' d s d1,
+    separate_complex_types o' = separate_complex_types o ->
+    quote_ok o' = true ->
+    layout_ok o = true -> layout_ok o' = true ->
+    roots_qf d = true ->
+    content_closed (quote o) (separate_complex_types o) d = true ->
+    pprint o d = Ok (s, d1) ->
+    exists s', pprint o' d = Ok (s', d1)
+               /\ (tokenize s' = tokenize s \/ tokenize s' = option_map (map swt) (tokenize s)).
+Proof. exact formatting_options_preserve_content. Qed.
+Print Assumptions C06_formatting_options_preserve_content.
+
+(* [R] the guards are needed: newlinechar " " with end_comment comments out the
+   rest of the text (outside the property's quantifier: "newlinechar containing
+   a line break") ... *)
+Theorem C06_newlinechar_without_break_refuted :
+  exists o o' d,
+    same_content_opts o o' /\ newlinechar o = newlinechar o' /\ forallb is_blank (newlinechar o) = true
+    /\ layout_ok o = false
+    /\ content_closed (quote o) (separate_complex_types o) d = true
+    /\ tokenize (pu_text_of (pprint o d)) <> tokenize (pu_text_of (pprint o' d)).
+Proof. exact newlinechar_without_break_refuted. Qed.
+Print Assumptions C06_newlinechar_without_break_refuted.
+
+(* ... and align_values glues a keyword to its value when upper-casing the key
+   lengthens it (a key containing U+00DF: the column is computed from len(key),
+   the line prints key.upper()); such a key is outside the schema vocabulary the
+   property quantifies over - recorded in DESIGN.md as an observation *)
+Theorem C06_align_values_glues_keyword_refuted :
+  exists o o' d,
+    same_content_opts o o' /\ layout_ok o = true /\ layout_ok o' = true
+    /\ content_closed (quote o) (separate_complex_types o) d = false
+    /\ tokenize (pu_text_of (pprint o d)) <> tokenize (pu_text_of (pprint o' d)).
+Proof. exact align_values_glues_keyword_refuted. Qed.
+Print Assumptions C06_align_values_glues_keyword_refuted.
+
+(* PARTIAL: composing the reader's tokens with the parser model (loads of the two
+   texts gives the same dictionary) is done by the kernel on the slot product
+   above and by the runners, not by a universal theorem. *)
